@@ -61,7 +61,24 @@ struct Call {
   std::vector<uint8_t> out;
 };
 
-static void* xalloc(size_t n) { return aligned_alloc(64, (n + 63) / 64 * 64 + 64); }
+// every buffer handed to the library sits at a varying offset 0, 8, .. 56 from a 64-byte boundary: callers only owe the library 8-byte
+// alignment, and code paths selected by the alignment of a scratch or data pointer must be as thread-safe as the others
+static thread_local std::map<void*, void*> g_bases;
+static thread_local unsigned g_allocs = 0;
+static void* xalloc(size_t n) {
+  const size_t off = 8 * ((g_allocs++ * 5 + 3) % 8);
+  char* b = (char*)aligned_alloc(64, (n + 63) / 64 * 64 + 128);
+  g_bases[b + off] = b;
+  return b + off;
+}
+static void xfree(void* p) {
+  auto it = g_bases.find(p);
+  if (it == g_bases.end()) { std::free(p); return; }
+  void* b = it->second;
+  g_bases.erase(it);
+  std::free(b);
+}
+#define free(p) xfree(p)
 
 static std::vector<uint8_t> run_call(int kind, uint64_t dseed) {
   Rng r(dseed);
